@@ -62,6 +62,15 @@ def _tweak_path(e, with_root):
     ev = Ppt.even_point()
     check(F.same(ev.d, dd), "even_point is not the even-y representative", witness=wit)
     check(F.same(pk.even_secret(), dd) and bool(pk.even_secret() == dd), "even_secret is not the even-y secret", witness=wit)
+    # history: the same key objects are then used with another script tree (another merkle root)
+    root2 = SBytes.sym("root2", 32)
+    wit2 = lambda env: {"d": env["d"], "root": bytes_env(env, "root", 32).hex() if with_root else "", "root2": bytes_env(env, "root2", 32).hex()}  # noqa
+    t2 = core.int_from_bytes(tagged(b"TapTweak", to32(core.wrap(Px)) + root2), "big")
+    want2 = F.reduce(field.lift_si(dd) + field.lift_si(t2))
+    assume(wrapb(core.b_not(F.is_zero_cond(field.lift_si(want2)))))
+    check(core.int_from_bytes(Ppt.tweak(root2), "big") == t2, "tweak() for a second merkle root on the same key object is not H_TapTweak(P||root2)", witness=wit2)
+    check(F.same(Ppt.tweaked_key(root2).d, want2), "tweaked_key for a second merkle root on the same key object does not commit to that root", witness=wit2)
+    check(F.same(pk.tweaked_key(root2).secret, want2), "tweaked private key for a second merkle root on the same key object", witness=wit2)
     return "odd" if branch(Ppar) else "even"
 
 
@@ -90,7 +99,15 @@ def replay_tweak(w):
     Q = Pp.tweaked_key(root)
     sk2 = pk.tweaked_key(root)
     ok = Q == want * pecc.G and sk2.secret == want and sk2.point == Q and pk.even_secret() == dd
-    return {"violated": not ok, "observed": f"d={d:#x} root={w['root']}: Q ok={Q == want * pecc.G} secret ok={sk2.secret == want}"}
+    obs = f"d={d:#x} root={w['root']}: Q ok={Q == want * pecc.G} secret ok={sk2.secret == want}"
+    if ok and "root2" in w:
+        r2 = bytes.fromhex(w["root2"])
+        t2 = int.from_bytes(ref_tag(b"TapTweak", Pp.x.num.to_bytes(32, "big") + r2), "big")
+        want2 = (dd + t2) % N
+        oks = (Pp.tweak(r2) == t2.to_bytes(32, "big"), Pp.tweaked_key(r2) == want2 * pecc.G, pk.tweaked_key(r2).secret == want2)
+        ok = all(oks)
+        obs += f"; then with root2={w['root2']} on the same objects: tweak ok={oks[0]} output key ok={oks[1]} secret ok={oks[2]}"
+    return {"violated": not ok, "observed": obs}
 
 
 # ---------------------------------------------------------------------------------------- O2/O3 trees and control blocks
@@ -273,6 +290,114 @@ def replay_tree(w):
     return {"violated": bool(bad), "observed": f"shape {w['shape']}: {bad}"}
 
 
+# ---------------------------------------------------------------------------------------- O2b leaf scripts past the 1-byte compact size
+
+def spec_compact(n):
+    if n < 0xFD:
+        return bytes([n])
+    if n <= 0xFFFF:
+        return b"\xfd" + n.to_bytes(2, "little")
+    return b"\xfe" + n.to_bytes(4, "little")
+
+
+def long_cmds(L, first):
+    """commands of a script whose raw serialisation has exactly L bytes: 75-byte pushes, one shorter push, OP_CHECKSIG;
+    `first` replaces the first two bytes of the first push"""
+    cmds, rem, k = [], L - 1, 0
+    while rem > 76:
+        body = bytes((7 * k + j) % 251 for j in range(75))
+        cmds.append(body)
+        rem -= 76
+        k += 1
+    if rem >= 2:
+        cmds.append(bytes((3 * j + 1) % 256 for j in range(rem - 1)))
+    elif rem == 1:
+        cmds.append(0x51)
+    cmds.append(0xAC)
+    if first is not None:
+        cmds[0] = first + cmds[0][2:]
+    return cmds
+
+
+def raw_of(cmds):
+    out = b""
+    for c in cmds:
+        out = out + (bytes([c]) if isinstance(c, int) else bytes([len(c)]) + c)
+    return out
+
+
+@with_env("taproot", "script")
+def _long_leaf_path(e, L, ver):
+    tm = loader.load("taproot")
+    sc = loader.load("script")
+    F = e.fld
+    d = SI.var("d", 1, N - 1)
+    Ppt = e.point(d)
+    first = SBytes.sym("first", 2)
+    cmds = long_cmds(L, first)
+    wit = lambda env: {"d": env["d"], "L": L, "ver": ver, "first": bytes_env(env, "first", 2).hex()}  # noqa
+    script = sc.Script(list(cmds))
+    raw = raw_of(cmds)
+    assert len(raw) == L
+    leaf = tm.TapLeaf(script, ver)
+    lh = tagged(b"TapLeaf", bytes([ver]) + spec_compact(L) + raw)
+    check(leaf.hash() == lh, "TapLeaf.hash differs from H_TapLeaf(version || compact_size(script) || script) for a long script", witness=wit)
+    Px, Ppar = e.grp.coords(d)
+    dd = (N - d) if branch(Ppar) else d
+    t = core.int_from_bytes(tagged(b"TapTweak", to32(core.wrap(Px)) + lh), "big")
+    want = F.reduce(field.lift_si(dd) + field.lift_si(t))
+    assume(wrapb(core.b_not(F.is_zero_cond(field.lift_si(want)))))
+    try:
+        check(F.same(leaf.external_pubkey(Ppt).d, want), "output key of a single long leaf is not even(P) + H_TapTweak(P||leaf hash)*G", witness=wit)
+        cb = leaf.control_block(Ppt)
+    except AttributeError:
+        # only the BIP341 output key is assumed finite: the implementation tweaked with something else
+        check(False, "the implementation's output key is not the BIP341 one (it may be the point at infinity where BIP341's is not)", witness=wit)
+        return "other tweak"
+    Qx, Qpar = e.grp.coords(want)
+    exp = core.sbytes(SBytes([ver + core.s_ite(wrapb(Qpar), 1, 0)])) + to32(core.wrap(Px))
+    ser = cb.serialize()
+    check((len(ser) == len(exp)) and (ser == exp), "control block of a single long leaf", witness=wit)
+    back = tm.ControlBlock.parse(ser)
+    check(back.merkle_root(script) == lh, "control block does not fold to the leaf hash", witness=wit)
+    check(F.same(back.external_pubkey(script).d, want), "control block does not recompute the output key", witness=wit)
+    return "ok"
+
+
+def ob_long_leaf(lengths):
+    runs = [sym_run(lambda: _long_leaf_path(L, ver), mode="int", timeout_ms=60000) for L in lengths for ver in (0xC0,)]
+    m = merge_runs(runs)
+    m["sample"] = {"raw script length": list(lengths), "script": "75-byte pushes (two symbolic bytes), a shorter push, OP_CHECKSIG", "key": "d*G, d symbolic"}
+    return m
+
+
+def replay_long_leaf(w):
+    from buidl import pecc, taproot, script
+    d, L, ver = w["d"], w["L"], w["ver"]
+    cmds = long_cmds(L, bytes.fromhex(w["first"]))
+    sc_ = script.Script(list(cmds))
+    raw = raw_of(cmds)
+    Pp = d * pecc.G
+    leaf = taproot.TapLeaf(sc_, ver)
+    lh = ref_tag(b"TapLeaf", bytes([ver]) + spec_compact(L) + raw)
+    dd = d if Pp.y.num % 2 == 0 else N - d
+    t = int.from_bytes(ref_tag(b"TapTweak", Pp.x.num.to_bytes(32, "big") + lh), "big")
+    Qw = ((dd + t) % N) * pecc.G
+    bad = []
+    if sc_.raw_serialize() != raw:
+        bad.append("script bytes")
+    if leaf.hash() != lh:
+        bad.append("leaf hash")
+    if leaf.external_pubkey(Pp) != Qw:
+        bad.append("output key")
+    cb = leaf.control_block(Pp)
+    if cb is None or cb.serialize() != bytes([ver + Qw.parity]) + Pp.x.num.to_bytes(32, "big"):
+        bad.append("control block")
+    elif taproot.ControlBlock.parse(cb.serialize()).external_pubkey(sc_) != Qw:
+        bad.append("control block recompute")
+    return {"violated": bool(bad), "observed": f"leaf script of {L} bytes (compact size {spec_compact(L).hex()}): {bad or 'as BIP341'}"}
+
+
 # ---------------------------------------------------------------------------------------- O4 tamper (structural, under injectivity)
 
 @with_env("taproot", "script")
@@ -344,8 +469,12 @@ def obligations(tier):
     obs = [Ob("O1-tweak", ob_tweak, replay="tweak")]
     for n in (range(1, 5) if q else range(1, 7)):
         parts = len(shapes(n))
-        for part in range(parts):
-            obs.append(Ob("O2O3-tree", ob_tree, {"n": n, "part": part, "parts": parts}, replay="tree", budget_s=3000))
+        # six leaves: 42 shapes of > 1 h each; the two combs and the most balanced shape stand for them (thorough tier sized by wall time)
+        pick = range(parts) if n < 6 else (0, parts // 2, parts - 1)
+        for part in pick:
+            obs.append(Ob("O2O3-tree", ob_tree, {"n": n, "part": part, "parts": parts}, replay="tree", budget_s=3000 if n < 6 else 7200))
+    obs.append(Ob("O2-long-leaf", ob_long_leaf, {"lengths": (252, 253, 254, 520) if q else (252, 253, 254, 255, 256, 300, 520, 4660, 65535, 65536)},
+                  replay="long_leaf"))
     pos = [0, 1, 16, 32, 33, 64, 65, 96] if q else list(range(97))
     for i in range(0, len(pos), 2 if q else 7):
         obs.append(Ob("O4-tamper", ob_tamper, {"positions": tuple(pos[i:i + (2 if q else 7)])}, replay="tamper", budget_s=1500))
